@@ -1,0 +1,18 @@
+//go:build verif
+
+// Contracts for package bft, checked by /verif/govc (comment-only; compiled only with -tags verif).
+package bft
+
+// viewBefore is the protocol's order on views: lexicographic on (Height, RootHeight, Round, Phase).
+// A committee-preserving root-chain update restarts the round counter under a higher root height,
+// so the round alone does not order views (taken from the property statement, not from the code).
+//@ spec func viewBefore(a *lib.View, b *lib.View) bool = a.Height < b.Height || (a.Height == b.Height && (a.RootHeight < b.RootHeight || (a.RootHeight == b.RootHeight && (a.Round < b.Round || (a.Round == b.Round && a.Phase < b.Phase)))))
+
+// ---- C01: the SafeNode predicate (HotStuff) -------------------------------------------------------
+// A locked replica votes for a proposal only if it is the locked proposal itself or it is justified
+// by a +2/3 certificate from a LATER view than the lock.
+//@ func (*BFT).SafeNode
+//@   requires b.HighQC != nil && b.HighQC.Header != nil
+//@   ensures[justified] result == nil ==> msg != nil && msg.Qc != nil && msg.HighQc != nil && bytes(msg.HighQc.BlockHash) == blockHashOfBytes(bytes(msg.Qc.Block)) && bytes(msg.HighQc.ResultsHash) == resultsHashOf(msg.Qc.Results)
+//@   ensures[safe] result == nil ==> (bytes(b.HighQC.BlockHash) == bytes(msg.HighQc.BlockHash) && bytes(b.HighQC.ResultsHash) == bytes(msg.HighQc.ResultsHash)) || viewBefore(b.HighQC.Header, msg.HighQc.Header)
+//@   ensures[frame] unchanged(b.HighQC)
